@@ -582,7 +582,7 @@ class STRINGN(StringDataType):
     """
 
     code = 0xD9  #: 0xD9
-    ENCODINGS = {1: "utf-8", 2: "utf-16-le", 4: "utf-32-le"}
+    ENCODINGS = {1: "iso-8859-1", 2: "utf-16-le", 4: "utf-32-le"}
 
     @classmethod
     def encode(cls, value: str, char_size: int = 1) -> bytes:
